@@ -2,7 +2,8 @@
    Only theorem statements, each closed by [exact] of a lemma proved elsewhere. *)
 From LzVerif Require Import Base.Bytes Filter.Delta Filter.DeltaProofs.
 From LzVerif Require Import Filter.Bcj Filter.BcjStream Filter.BcjDefects Filter.BcjCodeProofs
-  Filter.BcjStreamProofs Filter.BcjIa64Proofs Filter.BcjX86InvProofs Filter.BcjAllProofs Filter.BcjDefectsProofs.
+  Filter.BcjStreamProofs Filter.BcjIa64Proofs Filter.BcjX86InvProofs Filter.BcjRiscvInvProofs Filter.BcjAllProofs
+  Filter.BcjDefectsProofs.
 
 (* Delta: for EVERY distance value (the whole usize range, in or out of 1..256) and every byte
    string, the encoder does not panic, keeps the length, and the decoder returns the input. *)
@@ -106,11 +107,28 @@ Theorem C11_bcj_inverse_x86 : forall start buf, bytes_ok buf = true ->
 Proof. exact bcj_inverse_x86. Qed.
 Print Assumptions C11_bcj_inverse_x86.
 
-(* ---- the round trip through the I/O adapters, for every architecture whose `code` inverse is
-   proved: one BCJWriter::write of the data, then BCJReader over ANY chunking of the filtered
-   stream and ANY history of destination sizes (zeros included) that asks for enough bytes. ---- *)
-Theorem C11_bcj_roundtrip_word : forall a, In a [X86; ARM; ARMT; ARM64; PPC; SPARC; IA64] ->
-  forall start data, start mod bcj_align a = 0 -> bytes_ok data = true ->
+(* RISC-V: start offset even; JAL, AUIPC pairs and the escape of AUIPC x0/x2 look-alikes *)
+Theorem C11_bcj_inverse_riscv : forall start buf, start mod 2 = 0 -> bytes_ok buf = true ->
+  exists st' out rest,
+    bcj_code RISCV true (bcj_init RISCV start) buf = Ok (st', out, rest) /\
+    bcj_code RISCV false (bcj_init RISCV start) (out ++ rest) = Ok (st', firstn (length out) buf, rest) /\
+    firstn (length out) buf ++ rest = buf /\ bytes_ok out = true.
+Proof. exact bcj_inverse_riscv. Qed.
+Print Assumptions C11_bcj_inverse_riscv.
+
+(* all eight at once ([bcj_align]: x86 1, ARM 4, ARM-Thumb 2, ARM64 4, PowerPC 4, SPARC 4, IA-64 16, RISC-V 2) *)
+Theorem C11_bcj_inverse_all : forall a start buf, start mod bcj_align a = 0 -> bytes_ok buf = true ->
+  exists st' out rest,
+    bcj_code a true (bcj_init a start) buf = Ok (st', out, rest) /\
+    bcj_code a false (bcj_init a start) (out ++ rest) = Ok (st', firstn (length out) buf, rest) /\
+    firstn (length out) buf ++ rest = buf /\ bytes_ok out = true.
+Proof. exact bcj_inverse_all. Qed.
+Print Assumptions C11_bcj_inverse_all.
+
+(* ---- the round trip through the I/O adapters, every architecture: one BCJWriter::write of the
+   data, then BCJReader over ANY chunking of the filtered stream and ANY history of destination
+   sizes (zeros included) that asks for enough bytes. ---- *)
+Theorem C11_bcj_roundtrip : forall a start data, start mod bcj_align a = 0 -> bytes_ok data = true ->
   exists enc,
     bcj_enc_parts a start [data] = Ok enc /\ length enc = length data /\
     forall parts sizes, concat parts = enc -> Forall (fun n => 0 <= n) sizes ->
@@ -118,8 +136,8 @@ Theorem C11_bcj_roundtrip_word : forall a, In a [X86; ARM; ARMT; ARM64; PPC; SPA
       exists rs' inner',
         bcj_read_calls (bcj_read_fuel (data_script parts)) a (bcj_reader_new a start) (data_script parts) sizes =
           Ok (data, [], rs', inner').
-Proof. exact bcj_roundtrip_word. Qed.
-Print Assumptions C11_bcj_roundtrip_word.
+Proof. exact bcj_roundtrip_all. Qed.
+Print Assumptions C11_bcj_roundtrip.
 
 (* ---- BCJReader, all eight architectures (shared with C07): the bytes delivered do not depend
    on the inner reader's chunking nor on the destination sizes; they are `code` applied to the
